@@ -46,6 +46,10 @@ def make_cfg(spec):
     if math.radians(7) >= aH:
         c.simulation.angle_from_limb = 0.5 * aH
     c.detector.radio.snr_threshold = 0.05
+    if alt == 33.5:
+        # a thrown cone narrower than every shower's effective Cherenkov cone: no event is cut by the cone
+        # test of the optical integral (seeded C14-15: the radio integral then re-used the optical factors)
+        c.simulation.max_cherenkov_angle = math.radians(0.5)
     if alt == 2000.0:
         c.detector.radio.low_frequency, c.detector.radio.high_frequency = 300.0, 1000.0
     if alt == 1000.0:
@@ -271,15 +275,17 @@ def empties(ctx, si, payload):
                 c2.detector.optical.enable = False
             if variant == "radio-off":
                 c2.detector.radio.enable = False
-            sim, log = fullrun.compute(c2, seed=seed)
-            ctx.count("empty")
-            ctx.distinct.add(("empty", name, variant))
-            wit = {"case": name, "variant": variant}
-            if log.exception is not None:
-                ctx.exception("empty", f"{name} [{variant}]: compute() raised instead of returning an empty table", log.exception, wit)
-                continue
-            if sim is None or len(sim) != 0 or not any(str(k).startswith("HIERARCH Config") or str(k).startswith("Config") for k in sim.meta):
-                ctx.violation("empty", f"{name} [{variant}]: returned {type(sim).__name__} with {len(sim) if sim is not None else None} rows and {len(sim.meta) if sim is not None else 0} header entries", wit)
+            # (the command line always asks for the progress messages, the Python API by default does not)
+            for verbose in (False, True):
+                sim, log = fullrun.compute(c2, seed=seed, verbose=verbose)
+                ctx.count("empty")
+                ctx.distinct.add(("empty", name, variant, verbose))
+                wit = {"case": name, "variant": variant, "verbose": verbose}
+                if log.exception is not None:
+                    ctx.exception("empty", f"{name} [{variant}, verbose={verbose}]: compute() raised instead of returning an empty table", log.exception, wit)
+                    continue
+                if sim is None or len(sim) != 0 or not any(str(k).startswith("HIERARCH Config") or str(k).startswith("Config") for k in sim.meta):
+                    ctx.violation("empty", f"{name} [{variant}, verbose={verbose}]: returned {type(sim).__name__} with {len(sim) if sim is not None else None} rows and {len(sim.meta) if sim is not None else 0} header entries", wit)
 
 
 def sequence(ctx, si, payload):
@@ -381,8 +387,10 @@ def run(ctx):
         ("Target", "mono", "map", 525.0, 2500),
         ("Diffuse", "power", None, 525.0, 150),
     ]
+    specs.insert(3, ("Diffuse", "mono", None, 33.5, 300))
     if T:
         specs = [(m, s, c, a, n) for m in ("Diffuse", "Target") for s in ("mono", "power") for c in (None, "mono", "map") for a in (33.0, 525.0, 2000.0) for n in ((150 if c != "map" else 300) if m == "Diffuse" else 2500,)]
+        specs += [("Diffuse", "mono", None, 33.5, 300), ("Diffuse", "power", "mono", 33.5, 300)]
     seeds = [11 + ctx.seed, 12 + ctx.seed] if not T else [11 + ctx.seed, 12 + ctx.seed, 13 + ctx.seed]
     P = []
     for i, sp in enumerate(specs):
